@@ -371,10 +371,154 @@ This decides `no new unaudited panic/recursion/loop site`, the enumerated necess
     acyclic(m, ctx);
     slice_totality(m, ctx);
     minmax_guard(m, ctx);
+    value_cycle(m, ctx);
+    template_cycle(m, ctx);
     // the generators treat notations the linker expands (selection types, COMPONENTS OF) as unreachable!(): the order of
     // the linking steps is what guarantees that none survives (shared with C09.order)
     crate::rules::c09::order(m, ctx, "C08.order");
     filter_converter(m, ctx);
+}
+
+/// C08.refchain: a value assignment may be a reference to another one (`a T ::= b`), and link_with_type replaces the
+/// reference by the referenced value and links again. On `b T ::= c  c T ::= b` that chase has no end unless the chain is
+/// followed with a visited list. link_with_type is evaluated as a whole (its own recursion followed through the crate's
+/// code, twelve levels at most) on such a cycle for each kind of governor: it must return — Ok or Err — within the bound.
+fn value_cycle(m: &Model, ctx: &mut Ctx) {
+    use crate::eval::{Env, Evaluator, Val};
+    use crate::rules::util::{const_resolver, inline_all};
+    use std::collections::BTreeMap as Map;
+    let Some(f) = m.fns.iter().find(|f| f.name == "link_with_type" && f.self_ty.as_deref() == Some("ASN1Value")) else {
+        ctx.fail_closed("C08.refchain", "anchor not found: ASN1Value::link_with_type");
+        return;
+    };
+    ctx.func(&f.key);
+    let consts = const_resolver(m);
+    let named = |n: &str, fields: Vec<(&str, Val)>| Val::Ctor(n.to_string(), vec![], fields.into_iter().map(|(k, v)| (k.to_string(), v)).collect::<Map<_, _>>());
+    let reference = |to: &str| named("ElsewhereDeclaredValue", vec![("identifier", Val::Str(to.into())), ("parent", Val::none()), ("module", Val::none())]);
+    let value_tld = |n: &str, to: &str| Val::Ctor("Value".into(), vec![named("ToplevelValueDefinition", vec![("name", Val::Str(n.into())), ("associated_type", Val::Ctor("ElsewhereDeclaredType".into(), vec![named("DeclarationElsewhere", vec![("identifier", Val::Str("U".into())), ("parent", Val::none()), ("module", Val::none())])], Map::new())), ("value", reference(to))])], Map::new());
+    let int_ty = Val::Ctor("Integer".into(), vec![named("Integer", vec![("distinguished_values", Val::none()), ("constraints", Val::List(vec![]))])], Map::new());
+    let type_tld = |n: &str, ty: Val| Val::Ctor("Type".into(), vec![named("ToplevelTypeDefinition", vec![("name", Val::Str(n.into())), ("ty", ty)])], Map::new());
+    let defs: Vec<(&str, Val)> = vec![("T", type_tld("T", int_ty.clone())), ("U", type_tld("U", int_ty.clone())), ("b", value_tld("b", "c")), ("c", value_tld("c", "b"))];
+    let depth = std::cell::Cell::new(0usize);
+    let hook = |_: &Evaluator, name: &str, a: &[Val]| -> Option<Result<Val, String>> {
+        match (name, a.first()) {
+            (".iter", Some(Val::Opaque(s))) if s == "tlds" => Some(Ok(Val::List(defs.iter().map(|(n, t)| Val::Tuple(vec![Val::Str(n.to_string()), t.clone()])).collect()))),
+            (".values", Some(Val::Opaque(s))) if s == "tlds" => Some(Ok(Val::List(defs.iter().map(|(_, t)| t.clone()).collect()))),
+            (".get", Some(Val::Opaque(s))) if s == "tlds" => match a.get(1) {
+                Some(Val::Str(k)) => Some(Ok(defs.iter().find(|(n, _)| n == k).map(|(_, v)| Val::some(v.clone())).unwrap_or(Val::none()))),
+                _ => Some(Err("tlds.get with a key that is not a name".into())),
+            },
+            (".link_with_type", _) => {
+                depth.set(depth.get() + 1);
+                if depth.get() > 12 {
+                    Some(Err("$unbounded".into()))
+                } else {
+                    None // followed through the crate's own code
+                }
+            }
+            (".int_type", _) => Some(Ok(Val::Sym("INT".into()))),
+            (".is_const_type", _) => Some(Ok(Val::Bool(false))),
+            (".as_str", Some(Val::Ctor(n, p, _))) if n == "ElsewhereDeclaredType" => Some(Ok(p.first().and_then(|d| match d { Val::Ctor(_, _, f) => f.get("identifier").cloned(), _ => None }).unwrap_or(Val::Str("?".into())))),
+            ("grammar_error!", _) => Some(Ok(Val::Sym("GrammarError".into()))),
+            _ => None,
+        }
+    };
+    let inl = inline_all(m, &["ASN1Value", "ToplevelDefinition"]);
+    let ev = Evaluator { consts: &consts, call_hook: &hook, inline: Some(&inl) };
+    let params: Vec<String> = f.sig.inputs.iter().filter_map(|a| match a { syn::FnArg::Typed(t) => Some(tok(&t.pat)), _ => None }).collect();
+    let governors: Vec<(&str, Val, Val)> = vec![
+        ("BOOLEAN", Val::Ctor("Boolean".into(), vec![Val::Opaque("boolean".into())], Map::new()), Val::none()),
+        ("INTEGER", int_ty.clone(), Val::none()),
+        ("ENUMERATED", Val::Ctor("Enumerated".into(), vec![Val::Opaque("enumerated".into())], Map::new()), Val::some(Val::Str("E".into()))),
+        ("type-reference", Val::Ctor("ElsewhereDeclaredType".into(), vec![named("DeclarationElsewhere", vec![("identifier", Val::Str("T".into())), ("parent", Val::none()), ("module", Val::none())])], Map::new()), Val::none()),
+    ];
+    for (label, ty, type_name) in governors {
+        let key = format!("cyclic-value-references:{}", label);
+        ctx.oblige("C08.refchain", &key, true);
+        depth.set(0);
+        let mut env = Env::new();
+        env.insert("self".into(), reference("b"));
+        env.insert(params.first().cloned().unwrap_or("tlds".into()), Val::Opaque("tlds".into()));
+        env.insert(params.get(1).cloned().unwrap_or("ty".into()), ty);
+        env.insert(params.get(2).cloned().unwrap_or("type_name".into()), type_name);
+        // four definitions: no loop over them needs more than a few rounds
+        crate::eval::WHILE_BOUND.with(|b| b.set(64));
+        let r = ev.eval_fn_body(&f.block, &mut env);
+        crate::eval::WHILE_BOUND.with(|b| b.set(10_000));
+        match r {
+            Ok(_) => {}
+            Err(e) if e.contains("while loop did not terminate") => ctx.violate("C08.refchain", &key, &f.file, f.line,
+                &format!("`a T ::= b  b U ::= c  c U ::= b` with a {} governor: a loop that follows the value references is still running after 64 rounds over 4 definitions — a chain that leads back into itself is not detected, so this input hangs the compiler", label)),
+            Err(e) if e.contains("$unbounded") => ctx.violate("C08.refchain", &key, &f.file, f.line,
+                &format!("`a T ::= b  b U ::= c  c U ::= b` with a {} governor: link_with_type is still substituting references after 12 rounds — the chain of value references is followed without a visited list, so this input overflows the stack", label)),
+            Err(e) => ctx.fail_closed("C08.refchain", &format!("[{}]: {}", key, e)),
+        }
+    }
+}
+
+/// C08.template: a parameterized type may instantiate itself (`List {T} ::= SEQUENCE { head T, tail List {T} OPTIONAL }`) or
+/// do so by way of another template. resolve_parameters expands an instantiation in place and then links the copy, which
+/// expands the instantiations inside it: without a guard that never ends. resolve_parameters is evaluated on `L {INTEGER}` for
+/// `L {T} ::= SEQUENCE { tail L {T} }`, its recursion through link_constraint_reference followed through the crate's own code:
+/// it must return — Ok or Err — within eight nested expansions.
+fn template_cycle(m: &Model, ctx: &mut Ctx) {
+    use crate::eval::{Env, Evaluator, Val};
+    use crate::rules::util::{const_resolver, inline_all};
+    use std::collections::BTreeMap as Map;
+    let Some(f) = m.fns.iter().find(|f| f.name == "resolve_parameters" && f.self_ty.as_deref() == Some("ASN1Type")) else {
+        ctx.fail_closed("C08.template", "anchor not found: ASN1Type::resolve_parameters");
+        return;
+    };
+    ctx.func(&f.key);
+    ctx.oblige("C08.template", "self-instantiating-template", true);
+    let consts = const_resolver(m);
+    let named = |n: &str, fields: Vec<(&str, Val)>| Val::Ctor(n.to_string(), vec![], fields.into_iter().map(|(k, v)| (k.to_string(), v)).collect::<Map<_, _>>());
+    let args = Val::List(vec![Val::Ctor("TypeParameter".into(), vec![Val::Sym("INTEGER".into())], Map::new())]);
+    let instantiation = Val::Ctor("ElsewhereDeclaredType".into(), vec![named("DeclarationElsewhere", vec![
+        ("identifier", Val::Str("L".into())), ("parent", Val::none()), ("module", Val::none()),
+        ("constraints", Val::List(vec![Val::Ctor("Parameter".into(), vec![args.clone()], Map::new())])),
+    ])], Map::new());
+    let member = named("SequenceOrSetMember", vec![("name", Val::Str("tail".into())), ("ty", instantiation), ("constraints", Val::List(vec![]))]);
+    let template_ty = Val::Ctor("Sequence".into(), vec![named("SequenceOrSet", vec![("members", Val::List(vec![member])), ("constraints", Val::List(vec![])), ("components_of", Val::List(vec![])), ("extensible", Val::none())])], Map::new());
+    let parameters = Val::List(vec![named("ParameterizationArgument", vec![("dummy_reference", Val::Str("T".into())), ("param_governor", Val::ctor("None"))])]);
+    let template = Val::Ctor("Type".into(), vec![named("ToplevelTypeDefinition", vec![("name", Val::Str("L".into())), ("ty", template_ty), ("parameterization", Val::some(named("Parameterization", vec![("parameters", parameters)])))])], Map::new());
+    let tlds = crate::eval::map_insert(crate::eval::new_map(), Val::Str("L".into()), template);
+    let depth = std::cell::Cell::new(0usize);
+    let hook = |_: &Evaluator, name: &str, a: &[Val]| -> Option<Result<Val, String>> {
+        match name {
+            "Self::resolve_parameters" | "ASN1Type::resolve_parameters" => {
+                depth.set(depth.get() + 1);
+                if depth.get() > 8 { Some(Err("$unbounded".into())) } else { None }
+            }
+            ".link_elsewhere_declared" | ".collect_supertypes" | ".link_cross_reference" | ".reassign_table_constraint" => Some(Ok(Val::Ctor("Ok".into(), vec![Val::Unit], Map::new()))),
+            ".constraints" | ".constraints_mut" => match a.first() {
+                Some(Val::Ctor(_, _, f)) if f.contains_key("constraints") => Some(Ok(f["constraints"].clone())),
+                _ => None,
+            },
+            "ToplevelTypeDefinition::from" | "ToplevelValueDefinition::from" | "ToplevelInformationDefinition::from" => Some(Ok(Val::Sym("<definition of the argument>".into()))),
+            "grammar_error!" => Some(Ok(Val::Sym("GrammarError".into()))),
+            _ => None,
+        }
+    };
+    let inl = inline_all(m, &["ASN1Type"]);
+    let ev = Evaluator { consts: &consts, call_hook: &hook, inline: Some(&inl) };
+    let params: Vec<String> = f.sig.inputs.iter().filter_map(|a| match a { syn::FnArg::Typed(t) => Some(tok(&t.pat)), _ => None }).collect();
+    if params.len() != 4 {
+        ctx.fail_closed("C08.template", "resolve_parameters: expected (identifier, parent, definitions, arguments)");
+        return;
+    }
+    let mut env = Env::new();
+    env.insert(params[0].clone(), Val::Str("L".into()));
+    env.insert(params[1].clone(), Val::none());
+    env.insert(params[2].clone(), tlds);
+    env.insert(params[3].clone(), args);
+    match ev.eval_fn_body(&f.block, &mut env) {
+        Ok(Val::Ctor(n, _, _)) if n == "Ok" || n == "Err" => {}
+        Ok(o) => ctx.fail_closed("C08.template", &format!("[self-instantiating template]: result {}", o.show().chars().take(120).collect::<String>())),
+        Err(e) if e.contains("$unbounded") => ctx.violate("C08.template", "self-instantiating-template", &f.file, f.line,
+            "`L {T} ::= SEQUENCE { tail L {T} }  X ::= L {INTEGER}`: resolve_parameters is still expanding L inside its own expansion after 8 rounds — a template that instantiates itself is expanded without end (stack overflow)"),
+        Err(e) => ctx.fail_closed("C08.template", &format!("[self-instantiating template]: {}", e)),
+    }
 }
 
 /// C08.guard: ASN1Value::min / max compare two character-range bounds by their position in a string type's alphabet; they are
